@@ -547,8 +547,15 @@ impl Database {
                         let record = RecordView::new(user_data, &schema)?;
 
                         let key_start = key_buffer.len() as u32;
-                        let mut all_non_null = true;
+                        // rows deleted earlier stay in the table B-tree as tombstones: they get no
+                        // index entry
+                        let mut all_non_null = !(row_data.len() >= crate::mvcc::RecordHeader::SIZE
+                            && crate::mvcc::RecordHeader::from_bytes(row_data).is_deleted());
+                        let live_row = all_non_null;
                         for &col_idx in &index_col_indices {
+                            if !live_row {
+                                break;
+                            }
                             let col_def = &columns[col_idx];
                             let value = OwnedValue::from_record_column(
                                 &record,
